@@ -231,6 +231,17 @@ func (e tentry) arity() (int, int) {
 	return 1, 1
 }
 
+// paramMigrators: the per-parameter migrators of an entry, also when it is wrapped by withOptionalDefaults
+func (e tentry) paramMigrators() []string {
+	if e.Kind == "optional" && e.Inner != nil {
+		return e.Inner.paramMigrators()
+	}
+	if e.Kind == "params" {
+		return e.PMs
+	}
+	return nil
+}
+
 func loadTable() {
 	dir := os.Getenv("VERIF_DIR")
 	if dir == "" {
@@ -390,8 +401,8 @@ func (g *genCtx) tree(depth int) *lt {
 		args := make([]*lt, n)
 		for i := range args {
 			args[i] = g.tree(depth - 1)
-			if e.Kind == "params" && i < len(e.PMs) {
-				switch e.PMs[i] {
+			if pms := e.paramMigrators(); i < len(pms) {
+				switch pms[i] {
 				case "byspaces":
 					if g.clean || r.Chance(4, 5) {
 						args[i] = &lt{K: hx.Pick(r, []string{"true", "false"})}
@@ -651,8 +662,8 @@ func oracleGrouping(res *hx.Result, tc tcase, t *lt) {
 				subtreeStrings(whole, sub)
 				var pms []string
 				if n.K == "call" {
-					if e, has := tableByName[strings.ToLower(n.S)]; has && e.Kind == "params" {
-						pms = e.PMs
+					if e, has := tableByName[strings.ToLower(n.S)]; has {
+						pms = e.paramMigrators()
 					}
 				}
 				for i, c := range n.A {
